@@ -1,6 +1,6 @@
 SPECIFICATION Spec
 CONSTANTS MaxLen = 3 MaxN = 5 Infinite = TRUE MaxOut = 4
-  Vals = "nat" Stops = FALSE MaxRuns = 1
+  Vals = "nat" Stops = FALSE MaxRuns = 1 MaxLead = 0
   Alphabet <- AlphaC02
   Must <- NoMust
   Pairs <- OnlyPairs
